@@ -67,3 +67,8 @@ def search(drv, model, diverged, lean, rng):
         if o.startswith("fault:") or o == "hang": return c, o, f"implementation outcome {o}"
         if c.expect is not None and o != c.expect: return c, o, f"direct oracle: property demands {c.expect!r}, implementation returned {o!r}"
     return None
+
+# L2 guard-sequence fragment (extract/gen_guards.py -> lean/Op2Model/Gen/Guards.lean; notes/l2guards.md)
+LEAN_MODULES = LEAN_MODULES + ["Op2Proofs.Props.C01_Gen"]
+PROVED = PROVED + ("; " +
+          "L2 guard fragment: C01_gen_prepareHeader_refuses (member size > INT32_MAX, name table / index table / next block offset > UINT32_MAX in 64-bit arithmetic, regenerated from the clang AST on every run, equal the model's refusals for all values of the C++ types)")
